@@ -80,7 +80,7 @@ Record stored (clk : N -> N) (me : N) (l : option vdoc) (i r : vdoc) (c' : N) : 
     (cv (d_hlv r) = cv (d_hlv i) /\ d_body r = d_body i /\ d_del r = d_del i) \/
     (exists x, l = Some x /\ cv (d_hlv r) = cv (d_hlv x) /\ d_body r = d_body x /\ d_del r = d_del x /\
                dominates (d_hlv i) (cv (d_hlv x)) = false /\ cv (d_hlv x) <> cv (d_hlv i) /\ d_del i && d_del x = false) \/
-    (cv (d_hlv r) = (me, c') /\ clk me < c' /\ d_del r = d_del i);
+    (cv (d_hlv r) = (me, c') /\ clk me < c');
   st_ge_i : forall q, q <> 0 -> value (d_hlv i) q <= value (d_hlv r) q;
   st_ge_l : forall x, l = Some x -> forall q, q <> 0 -> value (d_hlv x) q <= value (d_hlv r) q;
   st_le : forall q, q <> 0 -> q <> me ->
@@ -187,15 +187,13 @@ Proof.
       assert (Bx : value (d_hlv x) me <= clk me) by (apply okv_bound; auto).
       assert (Bi : value (d_hlv i) me <= clk me) by (apply okv_bound; auto).
       unfold merged_doc. rewrite Reg.
-      split; [|split; [discriminate|split; [auto|split; [discriminate|intros _; eauto]]]].
-      constructor; cbn [d_hlv d_body d_del].
-      * lia.
-      * exact O.
-      * intros x0 E. inv E. exact D.
-      * right. right. auto.
-      * intros q Hq. destruct (N.eq_dec q me) as [->|Nq]; [rewrite Vm; lia | rewrite (V q Hq Nq); lia].
-      * intros x0 E q Hq. inv E. destruct (N.eq_dec q me) as [->|Nq]; [rewrite Vm; lia | rewrite (V q Hq Nq); lia].
-      * intros q Hq Nq. rewrite (V q Hq Nq). lia.
+      destruct (null_merge_is_delete && (mb =? del_digest_body));
+      (split; [|split; [discriminate|split; [auto|split; [discriminate|intros _; eauto]]]];
+       constructor; cbn [d_hlv d_body d_del];
+       [ lia | exact O | intros x0 E; inv E; exact D | right; right; auto
+       | intros q Hq; destruct (N.eq_dec q me) as [->|Nq]; [rewrite Vm; lia | rewrite (V q Hq Nq); lia]
+       | intros x0 E q Hq; inv E; destruct (N.eq_dec q me) as [->|Nq]; [rewrite Vm; lia | rewrite (V q Hq Nq); lia]
+       | intros q Hq Nq; rewrite (V q Hq Nq); lia ]).
   - (* already present *)
     left. cbn [fst snd]. split; [reflexivity|]. split; [reflexivity|]. split; [unfold keeps; auto|].
     split; [discriminate|]. split; [discriminate|]. intros _. exists x. auto.
@@ -272,7 +270,7 @@ Proof.
   assert (CLK : forall q, gclk s q <= bump (gclk s) a c' q) by (apply bump_ge; apply (st_clk _ _ _ _ _ _ St)).
   (* the stored copy against any old copy w of the same document *)
   assert (UQ : forall p w, gdoc s p d = Some w -> cv (d_hlv r) = cv (d_hlv w) -> d_body r = d_body w /\ d_del r = d_del w).
-  { intros p w W E. destruct (st_kind _ _ _ _ _ _ St) as [[C [B D]] | [[x [X [C [B [D _]]]]] | [C [L _]]]].
+  { intros p w W E. destruct (st_kind _ _ _ _ _ _ St) as [[C [B D]] | [[x [X [C [B [D _]]]]] | [C L]]].
     - rewrite B, D. apply (ci_uniq s I 2 p d i w Yi W). congruence.
     - rewrite B, D. apply (ci_uniq s I a p d x w X W). congruence.
     - exfalso. destruct (fresh_unknown s p d w a c' I W L) as [_ F]. congruence. }
@@ -293,7 +291,7 @@ Proof.
     destruct (N.eqb_spec d' d) as [->|Nd]; [|rewrite andb_false_r in X; eapply (ci_m s I); eauto].
     rewrite andb_true_r in X. destruct (N.eqb_spec a0 a) as [->|Na]; [|eapply (ci_m s I); eauto].
     inv X. rewrite Yi in Y. inv Y.
-    destruct (st_kind _ _ _ _ _ _ St) as [[C _] | [[x0 [X0 [C [_ [_ [Dn _]]]]]] | [C [L _]]]].
+    destruct (st_kind _ _ _ _ _ _ St) as [[C _] | [[x0 [X0 [C [_ [_ [Dn _]]]]]] | [C L]]].
     + exact C.
     + rewrite C in D2. congruence.
     + rewrite C in D2. destruct (fresh_unknown s 2 d y a c' I Yi L) as [F _]. congruence.
